@@ -113,7 +113,8 @@ def alternative(draw, kind, regs, env):
     elif kind == 'numeric_bytecode':
         n = draw(bits(1, 16))
         top = (1 << n) - 1
-        lo = draw(st.integers(0, top))
+        bottom = -(1 << (n - 1)) if draw(st.integers(0, 3)) == 0 else 0
+        lo = draw(st.integers(bottom, top))
         hi = draw(st.integers(lo, top))
         alt['bytecode'] = {'size': n, 'min': lo, 'max': hi}
         p = draw(st.sampled_from(['suffix', 'prefix', None]))
@@ -171,9 +172,26 @@ def alternative(draw, kind, regs, env):
         for r in iregs:
             idx[f'idx_{r}'] = {'type': 'register', 'register': r,
                                'bytecode': {'value': draw(unsigned_value(isz)), 'size': isz}}
-        if draw(st.integers(0, 3)) == 0 and kind == 'indexed_register':
+        extra = draw(st.sampled_from(['', '', '', '', 'num', 'num', 'nbc', 'nbc', 'nenum', 'enum']))
+        if extra == 'num' and kind == 'indexed_register':
             idx['idx_num'] = {'type': 'numeric', 'bytecode': {'value': draw(unsigned_value(isz)), 'size': isz},
                               'argument': draw(_argument(1, 24))}
+        elif extra == 'nbc':
+            # the index code is the value of a run-time expression
+            bottom = -(1 << (isz - 1)) if draw(st.booleans()) else 0
+            lo = draw(st.integers(bottom, (1 << isz) - 1))
+            idx['idx_nbc'] = {'type': 'numeric_bytecode',
+                              'bytecode': {'size': isz, 'min': lo, 'max': draw(st.integers(lo, (1 << isz) - 1))}}
+        elif extra == 'nenum':
+            keys = draw(st.lists(st.integers(0, 40), min_size=1, max_size=4, unique=True))
+            idx['idx_nen'] = {'type': 'numeric_enumeration',
+                              'bytecode': {'size': isz, 'value_dict': {k: draw(unsigned_value(isz)) for k in keys}}}
+        elif extra == 'enum' and env.get('keys'):
+            keys = draw(st.lists(st.sampled_from(env['keys']), min_size=1, max_size=3, unique=True))
+            a = draw(_argument(1, 16))
+            a['value_dict'] = {k: draw(unsigned_value(a['size'])) for k in keys}
+            idx['idx_enum'] = {'type': 'enumeration', 'argument': a,
+                               'bytecode': {'size': isz, 'value_dict': {k: draw(unsigned_value(isz)) for k in keys}}}
         alt['index_operands'] = idx
         if kind == 'indirect_indexed_register':
             d = draw(_decorator())
@@ -363,11 +381,35 @@ def _lit(v, draw, notations=('dec', 'hex$', 'hex0x', 'hexH', 'bin%', 'binb')):
     return ['neg', node] if v < 0 else node
 
 
+class ForcedConsts(dict):
+    """A constants table whose use is compulsory: every value is written relative to a constant (or as a character)."""
+    force = True
+
+
+def twin_operand(op, twin_names):
+    """The operand with every constant replaced by its case-twin and every letter literal case-swapped: the same text
+    up to letter case, a different value."""
+    def walk(x):
+        if isinstance(x, dict):
+            return {k: walk(v) for k, v in x.items()}
+        if isinstance(x, list):
+            if len(x) == 2 and x[0] == 'lab' and x[1] in twin_names:
+                return ['lab', twin_names[x[1]]]
+            if len(x) == 3 and x[0] == 'num' and x[2] == 'chr' and chr(x[1]).isalpha():
+                return ['num', ord(chr(x[1]).swapcase()), 'chr']
+            return [walk(v) for v in x]
+        return x
+    return walk(op)
+
+
 def value_ast(draw, v, consts=None, simple=False, allow_chr=True):
     """An expression AST whose value is v.  `simple`: only characters allowed inside brackets."""
     nots = ('dec', 'hex$', 'hexH', 'bin%') if simple else ('dec', 'hex$', 'hex0x', 'hexH', 'bin%', 'binb')
     choice = draw(st.integers(0, 9))
-    if consts and choice < 2:
+    force = bool(getattr(consts, 'force', False))
+    if force and choice >= 7 and allow_chr and not simple and 32 < v < 127 and chr(v) in exprs.SAFE_CHARS:
+        return ['num', v, 'chr']
+    if consts and (choice < 2 or force):
         name = draw(st.sampled_from(sorted(consts)))
         d = v - consts[name]
         if d == 0:
@@ -481,7 +523,31 @@ def operand_for(draw, alt, isa_env, place, simple=False):
         return op
     if kind in ('indexed_register', 'indirect_indexed_register'):
         iid = draw(st.sampled_from(sorted(alt['index_operands'])))
-        idx = draw(operand_for(alt['index_operands'][iid], isa_env, place, simple=True))
+        ialt = alt['index_operands'][iid]
+        if ialt['type'] in ('numeric_bytecode', 'numeric_enumeration'):
+            # these read exactly one expression token in the index position (nothing documents more): a literal or a
+            # named constant; a negative value can only be written as a constant the caller agreed to define
+            if ialt['type'] == 'numeric_bytecode':
+                lo, hi = ialt['bytecode']['min'], ialt['bytecode']['max']
+                if 'minted' not in place:
+                    lo = max(lo, 0)
+                    if lo > hi:
+                        return None
+                v = draw(st.one_of(st.sampled_from([lo, hi]), st.integers(lo, hi)))
+            else:
+                v = draw(st.sampled_from(sorted(ialt['bytecode']['value_dict'])))
+            if v < 0 or ('minted' in place and draw(st.integers(0, 2)) == 0):
+                name = next((n for n, x in place['minted'].items() if x == v), None)
+                if name is None:
+                    name = ['IX_A', 'ix_b', 'Ix_c', 'IX_D', 'ix_e', 'IX_F', 'ix_g', 'IX_H'][len(place['minted']) % 8]
+                    if name in place['minted']:
+                        return None
+                    place['minted'][name] = v
+                idx = {'k': 'expr', 'e': ['lab', name]}
+            else:
+                idx = {'k': 'expr', 'e': _lit(v, draw, ('dec', 'hex$', 'hexH', 'bin%'))}
+        else:
+            idx = draw(operand_for(ialt, isa_env, place, simple=True))
         if idx is None:
             return None
         op = {'k': 'idxreg' if kind == 'indexed_register' else 'indidx', 'r': alt['register'], 'idx': idx}
